@@ -85,6 +85,7 @@ var replacements = map[string]string{
 	"github.com/EscanBE/evermint/v12/x/cpc/utils.AbiEncodeArrayOfAddresses":                       "AbiEncodeArrayOfAddresses",
 	"github.com/EscanBE/evermint/v12/x/cpc/utils.MustMarshalJson":                                 "MustMarshalJson",
 	"encoding/json.Unmarshal":                                                                      "JsonUnmarshal",
+	"github.com/cometbft/cometbft/libs/json.Unmarshal":                                              "JsonUnmarshal",
 
 	// RLP / bloom of receipts (reflection-driven RLP and the pooled assembly Keccak are outside the engine)
 	"(*github.com/ethereum/go-ethereum/core/types.Receipt).MarshalBinary":   "ReceiptMarshalBinary",
